@@ -216,6 +216,19 @@ def run_property(prop, tier, jobs, keep):
     hs = registry.harnesses(prop, tier)
     if ONLY:
         hs = [h for h in hs if ONLY in h.name]
+    skipped_note = None
+    if prop == "C12" and tier == "quick":
+        # the frozen-snapshot harnesses pose literally the same queries as the row harnesses when the data file
+        # is byte-identical to the snapshot; they are only discharged separately when the two differ
+        try:
+            same = open(os.path.join(REPO, "scripts", "tls-ciphersuites.txt"), "rb").read() == \
+                open(os.path.join(VERIF, "oracle-data", "tls-ciphersuites.frozen.txt"), "rb").read()
+        except OSError:
+            same = False
+        if same:
+            n0 = len(hs)
+            hs = [h for h in hs if not h.name.startswith("c12_frozen_")]
+            skipped_note = "%d c12_frozen_* harnesses not run separately: scripts/tls-ciphersuites.txt is byte-identical to the frozen snapshot, so they coincide with c12_rows_*" % (n0 - len(hs))
     if tier == "thorough" and "thorough" not in TIER_FEATS:
         TIER_FEATS.append("thorough")
     pm = meta.META[prop]
@@ -433,6 +446,8 @@ def run_property(prop, tier, jobs, keep):
 
     wall = time.time() - t0
     if not ONLY:
+        if skipped_note:
+            pm = dict(pm, assumptions=list(pm.get("assumptions", [])) + [skipped_note])
         write_evidence(prop, tier, seed, hs, results, extra_results, violations, known_hits, inconclusive, wall, build_s, pm, observations)
     if keep:
         _scratch_dirs.remove(scratch)
